@@ -10,6 +10,9 @@
 // still enabled may be switched away from.  "No thread enabled while some are unfinished" is a
 // deadlock - a logical verdict, no timer involved.
 #pragma once
+#ifndef VMON_REAL_MUTEX
+#define VMON_REAL_MUTEX std::mutex
+#endif
 #include <algorithm>
 #include <atomic>
 #include <condition_variable>
@@ -36,7 +39,7 @@ struct Thread {
 };
 
 struct State {
-    std::mutex m;
+    VMON_REAL_MUTEX m;
     std::vector<Thread*> threads;
     Thread* current = nullptr;
     std::vector<int> prefix;
@@ -82,7 +85,7 @@ inline size_t decode_choice(size_t rec, size_t dflt, size_t n) {
 }
 
 // pick and wake the next thread; caller holds st().m and is `from` (may be finished/blocked)
-inline void schedule_locked(std::unique_lock<std::mutex>& lock, Thread* from, const char* where) {
+inline void schedule_locked(std::unique_lock<VMON_REAL_MUTEX>& lock, Thread* from, const char* where) {
     State& s = st();
     std::vector<Thread*> enabled;
     bool unfinished = false;
@@ -129,7 +132,7 @@ inline void schedule_locked(std::unique_lock<std::mutex>& lock, Thread* from, co
     next->cv.notify_all();
 }
 
-inline void wait_for_go(std::unique_lock<std::mutex>& lock, Thread* me) {
+inline void wait_for_go(std::unique_lock<VMON_REAL_MUTEX>& lock, Thread* me) {
     me->cv.wait(lock, [me] { return me->go; });
     me->go = false;
 }
@@ -139,7 +142,7 @@ inline std::atomic<int>& attached() { static std::atomic<int> n{0}; return n; }
 // a new managed thread announces itself and waits until the scheduler picks it
 inline void attach(const std::string& name, bool daemon = false) {
     State& s = st();
-    std::unique_lock<std::mutex> lock(s.m);
+    std::unique_lock<VMON_REAL_MUTEX> lock(s.m);
     Thread* t = new Thread();
     t->id = static_cast<int>(s.threads.size());
     t->name = name;
@@ -155,7 +158,7 @@ inline void attach(const std::string& name, bool daemon = false) {
 inline void run(int expected) {
     State& s = st();
     while (attached() < expected) std::this_thread::yield();
-    std::unique_lock<std::mutex> lock(s.m);
+    std::unique_lock<VMON_REAL_MUTEX> lock(s.m);
     // ids follow attach order, which is racy: order threads by name for reproducible schedules
     std::sort(s.threads.begin(), s.threads.end(), [](Thread* a, Thread* b) { return a->name < b->name; });
     for (size_t i = 0; i < s.threads.size(); ++i) s.threads[i]->id = static_cast<int>(i);
@@ -167,7 +170,7 @@ inline void run(int expected) {
 inline void yield(const char* where) {
     State& s = st();
     if (!s.active || !self) return;
-    std::unique_lock<std::mutex> lock(s.m);
+    std::unique_lock<VMON_REAL_MUTEX> lock(s.m);
     Thread* me = self;
     schedule_locked(lock, me, where);
     if (s.current != me) wait_for_go(lock, me); else me->go = false;
@@ -176,7 +179,7 @@ inline void yield(const char* where) {
 inline void block_until(const std::function<bool()>& pred, const char* where) {
     State& s = st();
     if (!s.active || !self) { while (!pred()) std::this_thread::yield(); return; }
-    std::unique_lock<std::mutex> lock(s.m);
+    std::unique_lock<VMON_REAL_MUTEX> lock(s.m);
     if (pred()) return;
     Thread* me = self;
     me->blocked_on = pred;
@@ -187,7 +190,7 @@ inline void block_until(const std::function<bool()>& pred, const char* where) {
 inline void finish() {
     State& s = st();
     if (!self) return;
-    std::unique_lock<std::mutex> lock(s.m);
+    std::unique_lock<VMON_REAL_MUTEX> lock(s.m);
     self->finished = true;
     if (s.active) schedule_locked(lock, self, "finish");
 }
